@@ -393,6 +393,11 @@ fn structure_edits(doc: &Value) -> Vec<Edit> {
         out.push(Edit::SetMany(vec![(pm(a), json!(2)), (pm(b), json!(1)), (pm(c), json!(2))]));
         out.push(Edit::SetMany(vec![(pm(0), json!(1)), (pm(c), json!(2))]));
         out.push(Edit::SetMany(vec![(pm(0), json!(2)), (pm(1), json!(1))]));
+        // a continuous page whose addresses cross 2^32 (contiguous over the integers, wrapping in 32-bit words)
+        let pa = |i: usize| format!("public_input.public_memory[{}].address", i);
+        out.push(Edit::SetMany(vec![(pm(b), json!(1)), (pa(b), json!(4294967295u64)), (pm(c), json!(1)), (pa(c), json!(0))]));
+        out.push(Edit::SetMany(vec![(pm(b), json!(1)), (pa(b), json!(4294967295u64)), (pm(c), json!(1)), (pa(c), json!(4294967296u64))]));
+        out.push(Edit::SetMany(vec![(pm(b), json!(1)), (pa(b), json!(4294967294u64)), (pm(c), json!(1)), (pa(c), json!(4294967295u64))]));
     }
     out.push(Edit::Set("public_input.public_memory".into(), json!([])));
     // dynamic parameters
